@@ -606,6 +606,14 @@ def items_for(tier):
     for tri in itertools.product(Q, repeat=3):
         for el in edge_lists(3):
             items.append((tier, "B", (tri,), 3, el))
+    # partially visible animals with an edge whose endpoints are BOTH outside the image while its segment crosses it:
+    # every arrangement of (outside-left, outside-right, t) for t in Q
+    # (the segments y = 0 and y = 3 pass exactly through grid cells, where the weight must be 1; the skew one has none)
+    for left, right in ((P_OUT, P_OUT2), (P_OUT, (7, 2)), ((1, 5), P_OUT2)):
+        for t in Q:
+            for tri in itertools.permutations((left, right, t)):
+                for el in edge_lists(3):
+                    items.append((tier, "B", (tri,), 3, el))
     a2, a3 = (A2[:8], A3[:6]) if tier == "quick" else (A2, A3)
     for pair in itertools.product(a2, repeat=2):
         for el in edge_lists(2):
@@ -668,7 +676,7 @@ def run(ctx):
         "family_A_two_node_animals": "all 81x81 ordered point pairs x edge list [(0,1)]; edge list [(1,0)] for "
         + ("the 3321 pairs with index(p)<=index(q)" if ctx.tier == "quick" else "all 81x81 pairs too"),
         "family_B_point_set_Q": [point(p, (8, 12)) for p in Q],
-        "family_B_three_node_animals": f"all {len(Q)}^3 triples x 24 edge lists",
+        "family_B_three_node_animals": f"all {len(Q)}^3 triples x 24 edge lists, plus every arrangement of (outside-left, outside-right, t in Q) (an edge with both endpoints outside whose segment crosses the image)",
         "family_C_animals_per_frame": 2 if ctx.tier == "quick" else 3,
         "family_C_lists": {"two_node_animals_pairs": len(a2), "three_node_animals_pairs": len(a3), "two_node_animals_triples": 8 if ctx.tier != "quick" else 0, "three_node_animals_triples": 4 if ctx.tier != "quick" else 0},
         "items_per_family": fam,
